@@ -41,6 +41,11 @@ def check_rolling(x, w, nd, out, what="rolling_sum"):
     o = out[:, w - 1:].astype(np.float64)
     nd_out = float(np.float32(nd))  # nodata is echoed in the float32 output (2147483647 comes back as 2147483648.0)
     ok = np.where(cnt == w, o == sv, np.where(cnt == 0, o == nd_out, (o == nd_out) | (o == sv)))
+    # windows holding a cell beyond 2^24 have no exactly representable float32 sum: only their nodata behaviour is decided here;
+    # every window WITHOUT such a cell must still be exact, whatever passed through earlier windows
+    win = sliding_window_view(x.astype(np.float64), w, axis=1)
+    huge = ((np.abs(win) > 2.0 ** 24) & (win != nd)).any(axis=2)
+    ok = ok | (huge & (cnt > 0))
     if ok.all():
         return None
     r, c = np.argwhere(~ok)[0]
@@ -254,6 +259,10 @@ def long_series(draw, dtypes, nmax, grouped=False):
     vmax = min(DT_BOUNDS[dtype], (2 ** 24 - 1) // max(n, 1))
     p_nd = draw(st.sampled_from([0, 10, 30, 60]))
     x = [nd if draw(st.integers(0, 99)) < p_nd else draw(st.integers(-vmax, vmax)) for _ in range(n)]
+    if dtype == "float32" and not grouped and n >= 3 and draw(st.integers(0, 3)) == 0:
+        # extreme dynamic range: one or two cells of 1e20 / 3e38 / 2^40 among small numbers (each window is summed on its own)
+        for q in draw(st.lists(st.integers(0, n - 1), min_size=1, max_size=2, unique=True)):
+            x[q] = draw(st.sampled_from([1e20, -1e20, 3.0e38, float(2 ** 40), -float(2 ** 33)]))
     return dtype, n, nd, x
 
 
@@ -279,7 +288,7 @@ def run(ctx):
 
     @st.composite
     def grp_case(draw):
-        dtype, n, nd, x = draw(long_series(["int16", "int32", "int64", "float32"], ctx.n(60, 300)))
+        dtype, n, nd, x = draw(long_series(["int16", "int32", "int64", "float32"], ctx.n(60, 300), grouped=True))
         k = draw(st.integers(1, min(n, 12)))
         base = list(range(k)) + [draw(st.integers(0, k - 1)) for _ in range(n - k)]
         groups = draw(st.permutations(base))
